@@ -261,7 +261,13 @@ def roundtrip_case(rng, key):
     np_ = rng.choice((1, 1, 2))
     if np_ > 1:
         o["number_of_processors"] = np_
-    return {"geometry": geom, "options": o, "np": np_,
+    # radial ranges given as unnormalised flux values (psi_core, psi_sol, ...) instead of
+    # psinorm_*: they are in the units of the psi hypnotoad grids, i.e. after the
+    # sign / 2pi options have been applied
+    explicit = []
+    if rng.random() < 0.4:
+        explicit = rng.sample(["psi_core", "psi_sol", "psi_pf_lower"], rng.choice((1, 2)))
+    return {"geometry": geom, "options": o, "np": np_, "explicit_psi": explicit,
             "wall": rng.choice(("rect", "slanted")), "sched_seed": rng.randrange(10**6),
             "gfile_name": rng.choice(("in.geqdsk", "g012345.00100", "shot 7.eqdsk")),
             # real g-files often start with blanks and end with blank lines or a trailer;
@@ -287,6 +293,24 @@ def run_roundtrip(case):
         arrs = workloads.tokamak_arrays(case["geometry"], wall=case["wall"])
         with workloads.env_seams():
             text = workloads.geqdsk_text(arrs)
+        options = dict(case["options"])
+        if case.get("explicit_psi"):
+            import numpy as np
+            from hypnotoad.cases import tokamak as _tok
+
+            a2 = workloads.tokamak_arrays(case["geometry"], wall=case["wall"])
+            with workloads.env_seams():
+                eq0 = _tok.TokamakEquilibrium(
+                    a2["R1D"], a2["Z1D"], a2["psi2D"], a2["psi1D"], a2["fpol1D"],
+                    wall=a2["wall"], make_regions=False,
+                    settings={k: options[k] for k in ("reverse_current", "psi_divide_twopi")
+                              if k in options})
+            norm = {"psi_core": options.get("psinorm_core", 0.8),
+                    "psi_sol": options.get("psinorm_sol", 1.2),
+                    "psi_pf_lower": options.get("psinorm_pf", 0.9)}
+            for name in case["explicit_psi"]:
+                options[name] = float(np.round(
+                    eq0.psi_axis + norm[name] * (eq0.psi_bdry - eq0.psi_axis), 9))
         deco = case.get("decorate", "none")
         if deco in ("leading_spaces", "both"):
             text = "  " + text
@@ -298,7 +322,7 @@ def run_roundtrip(case):
         with open(os.path.join(a, gname), "w", newline="") as f:
             f.write(text)
         with open(os.path.join(a, "in.yaml"), "w") as f:
-            yaml.safe_dump(case["options"], f)
+            yaml.safe_dump(options, f)
         np_ = case["np"]
 
         def ch(k):
